@@ -168,6 +168,8 @@ class ColumnProfile:
 
     def __add__(self, profile: "ColumnProfile") -> "ColumnProfile":
         new_profile = self.deep_copy()
+        # an estimate made earlier cached this operand's histogram on it; the sum has its own
+        new_profile.__dict__.pop("distogram", None)
         new_profile.count += profile.count
         new_profile.missing += profile.missing
         new_profile.transitions += profile.transitions + 1
